@@ -92,6 +92,46 @@ def run(ctx):
     correspond(ctx, "polynomial_norm", pn, [("hazmat.alg_polynomial_norm", lambda c: [enc_vec(c["c"])], whole)],
                coq_pn, HEADER, "chk_norm", judge=judge_pn, configs=("pure",), nontrivial=nt)
 
+    # ---- sigma transform and companion matrix (hand model Model/Sigma.v): trailing / leading / interior zero coefficients,
+    #      all-zero and constant inputs, degrees 0..12
+    sg = []
+    for _ in range(150 if ctx.quick() else 4000):
+        d = rng.randint(0, 12)
+        cs = [F(rng.randint(-64, 64), rng.choice([1, 2, 8])) for _ in range(d + 1)]
+        kind = rng.choice(["plain", "plain", "trailing", "trailing", "interior", "zero", "const"])
+        if kind == "trailing":
+            for k in range(rng.randint(1, d + 1)):
+                cs[d - k] = F(0)
+        elif kind == "interior" and d >= 2:
+            for _k in range(rng.randint(1, d)):
+                cs[rng.randint(0, d - 1)] = F(0)
+        elif kind == "zero":
+            cs = [F(0)] * (d + 1)
+        elif kind == "const":
+            cs = [cs[0] or F(1)] + [F(0)] * d
+        sg.append({"c": cs, "kind": kind})
+    REL = F(1, 2 ** 44)
+
+    def coq_sigma(c, obs):
+        if obs[0][0] in ("exc", "malformed"):
+            return None
+        sig, d, e = obs[0][1]
+        o = "None" if sig is None else "(Some %s)" % coq_list(sig)
+        return ["(%s, %s, %d%%nat, %d%%nat, %s, 0)" % (coq_list(c["c"]), o, d, e, coq_q(REL))]
+
+    def coq_comp(c, obs):
+        if obs[0][0] in ("exc", "malformed"):
+            return None
+        m, d, e = obs[0][1]
+        return ["(%s, [%s], %d%%nat, %d%%nat, %s, 0)" % (coq_list(c["c"]), "; ".join(coq_list(r) for r in m), d, e, coq_q(REL))]
+    correspond(ctx, "get_sigma_coeffs", sg, [("hazmat.alg_get_sigma_coeffs", lambda c: [enc_vec(c["c"])], whole)], coq_sigma, HEADER, "chk_sigma",
+               configs=("pure",), nontrivial=lambda c: c["kind"] not in ("zero", "const"))
+    correspond(ctx, "bernstein_companion", sg, [("hazmat.alg_bernstein_companion", lambda c: [enc_vec(c["c"])], whole)], coq_comp, HEADER, "chk_companion",
+               configs=("pure",), nontrivial=lambda c: c["kind"] not in ("zero", "const"))
+    kinds = {}
+    for c in sg:
+        kinds[c["kind"]] = kinds.get(c["kind"], 0) + 1
+    ctx.corr["get_sigma_coeffs"]["distribution(kind)"] = kinds
     # ---- support: bezier_roots returns all roots (prescribed roots), LAPACK not modelled
     cases = []
     for _ in range(40 if ctx.quick() else 600):
@@ -171,9 +211,12 @@ def run(ctx):
                   "its curve (degree 1: it IS the line equation); the interpolation formulas return exactly K (=1, 3) times the power-basis "
                   "coefficients of the sampled polynomial for degree <= 4; Bernstein -> power basis represents the same polynomial for degree "
                   "<= 3 and raises above. Tied by exact correspondence of evaluate (degree 3 through a hand model of the 6x6 Sylvester "
-                  "determinant), to_power_basis (pairs 1-1 .. 2-2), poly_to_power_basis, polynomial_norm. NOT modelled: eigvals / "
+                  "determinant), to_power_basis (pairs 1-1 .. 2-2), poly_to_power_basis, polynomial_norm. Root finder: the sigma transform "
+                  "factorization (s = 1 with multiplicity d - e, the other roots are sigma/(1+sigma)) and 'eigenvalues of the companion matrix = "
+                  "roots of the sigma polynomial' are proved for the hand model of _get_sigma_coeffs / bernstein_companion (any field of "
+                  "characteristic 0), tied by correspondence. NOT modelled: eigvals / "
                   "polyroots / polyfit / LAPACK (bezier_roots is swept with prescribed roots only)",
                   unproved=[
                             "bezier_roots / roots_in_unit_interval return all roots (LAPACK, NumPy polyroots not modelled; sweep)",
                             "polynomial_norm = L2 norm for every degree (model = the defining double sum; corresponded)",
-                            "sigma transform and companion matrix are not modelled"])
+                            "the eigenvalue computation itself (LAPACK) and the 2^-? filter of sigma near -1 (F16) are outside the model"])
